@@ -141,7 +141,11 @@ class NativeEvent:
         return self.flag
 
     def wait(self, timeout=None):
-        return True if self.flag or timeout is None else False
+        if self.flag:
+            return True
+        if timeout is None:
+            raise Deadlock('wait on event %s that is never set' % self.name)
+        return False
 
 
 class NativeExt:
@@ -350,6 +354,7 @@ class NativeCtx:
         self._counters = {}
         self.sampler = None
         self._pending_kind = None
+        self._call_depth = 0
         self._install_helpers()
 
     def _val(self, name, default=None):
@@ -528,14 +533,19 @@ class NativeCtx:
 
         def on_alarm(signum, frame):
             raise Deadlock('native call still blocked after %d s (blocking primitive never released)' % CALL_TIMEOUT_S)
-        old = signal.signal(signal.SIGALRM, on_alarm)
-        signal.alarm(CALL_TIMEOUT_S)
+        outermost = self._call_depth == 0
+        self._call_depth += 1
+        if outermost:
+            old = signal.signal(signal.SIGALRM, on_alarm)
+            signal.alarm(CALL_TIMEOUT_S)
         try:
             try:
                 self.ns['result'] = f(*args, **kwargs)
             finally:
-                signal.alarm(0)
-                signal.signal(signal.SIGALRM, old)
+                self._call_depth -= 1
+                if outermost:
+                    signal.alarm(0)
+                    signal.signal(signal.SIGALRM, old)
         except Deadlock as e:
             self.ns['raised'] = 'Deadlock'
             self.ns['exc'] = e
